@@ -344,6 +344,9 @@ class SymEval:
             if q is None:
                 if name == "len" and len(args) == 1:
                     return S.call("len", args[0])
+                if name == "sorted" and len(args) == 1 and not kwargs and args[0].op == "call" and args[0].args[0] in ("tuple", "list") and len(args[0].args) == 3:
+                    a_, b_ = args[0].args[1], args[0].args[2]
+                    return S.call("list", S.emin(a_, b_), S.emax(a_, b_))
                 if name == "max":
                     return S.emax(*args) if len(args) > 1 else S.call("max", *args)
                 if name == "min":
